@@ -33,7 +33,7 @@ struct Srv {
 }
 
 /// evaluate the complete routing product over the given sessions; `users`/`clients` index the constant tables
-fn routing(api: &Api, files: &[Option<(usize, Vec<u8>)>], clients: &[(usize, Vec<u8>, Vec<u8>)], servers: &[Srv], cx: &mut Cx, tag: &str) {
+fn routing(api: &Api, files: &[Option<(usize, Vec<u8>)>], clients: &[(usize, Vec<u8>, Vec<u8>)], servers: &[Srv], cx: &mut Cx, tag: &str, mode: Mode) {
     let mut fins: Vec<(usize, usize, Vec<u8>, Vec<u8>)> = vec![];
     for (ci, (cidx, _ke1, cst)) in clients.iter().enumerate() {
         let cpw = CLIENTS[*cidx].1;
@@ -53,11 +53,13 @@ fn routing(api: &Api, files: &[Option<(usize, Vec<u8>)>], clients: &[(usize, Vec
                 (Err(_), false) => cx.outcome("client-rejects-unmatched"),
                 (Ok(_), false) => {
                     cx.outcome("CLIENT-ACCEPTS-UNMATCHED");
-                    cx.violate_case("client-accepts-unmatched", format!("client {} completes on a response outside its matched conversation", CLIENTS[*cidx].0), case());
+                    if mode == Mode::Own {
+                        cx.violate_case("client-accepts-unmatched", format!("client {} completes on a response outside its matched conversation", CLIENTS[*cidx].0), case());
+                    }
                 }
                 (Err(e), true) => {
                     cx.outcome("CLIENT-REJECTS-MATCHED");
-                    cx.violate_case("client-rejects-matched", format!("client {} rejects the response of its matched conversation: {:?}", CLIENTS[*cidx].0, e), case());
+                    honest_fail_case(cx, mode, "client-rejects-matched", format!("client {} rejects the response of its matched conversation: {:?}", CLIENTS[*cidx].0, e), case());
                 }
             }
         }
@@ -65,7 +67,7 @@ fn routing(api: &Api, files: &[Option<(usize, Vec<u8>)>], clients: &[(usize, Vec
     let zero = vec![0u8; api.spec.nh()];
     for (sj, s) in servers.iter().enumerate() {
         cx.edges += 1;
-        if api.slogin_finish(&Blob::n(&s.st), &Blob::n(&zero)).is_ok() {
+        if mode == Mode::Own && api.slogin_finish(&Blob::n(&s.st), &Blob::n(&zero)).is_ok() {
             cx.violate_case("server-accepts-zeros", "server session completes on an all-zero finalization".into(), json!({"routing": tag, "server_session": sj}));
         }
         for (ci, sk_, fin, sk) in &fins {
@@ -81,18 +83,20 @@ fn routing(api: &Api, files: &[Option<(usize, Vec<u8>)>], clients: &[(usize, Vec
                 (Err(_), false) => cx.outcome("server-rejects-unmatched"),
                 (Ok(_), false) => {
                     cx.outcome("SERVER-ACCEPTS-UNMATCHED");
-                    cx.violate_case("server-accepts-unmatched", "a server session completes on a finalization made for another server session".into(), case());
+                    if mode == Mode::Own {
+                        cx.violate_case("server-accepts-unmatched", "a server session completes on a finalization made for another server session".into(), case());
+                    }
                 }
                 (Err(e), true) => {
                     cx.outcome("SERVER-REJECTS-MATCHED");
-                    cx.violate_case("server-rejects-matched", format!("server rejects the finalization of its matched conversation: {:?}", e), case());
+                    honest_fail_case(cx, mode, "server-rejects-matched", format!("server rejects the finalization of its matched conversation: {:?}", e), case());
                 }
             }
         }
     }
     for i in 0..fins.len() {
         for j in 0..i {
-            if fins[i].3 == fins[j].3 {
+            if mode == Mode::Own && fins[i].3 == fins[j].3 {
                 cx.violate_case("duplicate-session-key", "two distinct completed sessions have the same session key".into(), json!({"routing": tag, "sessions": [fins[i].1, fins[j].1]}));
             }
         }
@@ -101,7 +105,7 @@ fn routing(api: &Api, files: &[Option<(usize, Vec<u8>)>], clients: &[(usize, Vec
 }
 
 /// (a) the stated population, generated in order variant `ord` on one shared tape
-fn part_a(api: &Api, ord: usize, seed: u64, cx: &mut Cx) {
+pub fn part_a(api: &Api, ord: usize, seed: u64, cx: &mut Cx, mode: Mode) {
     let mut t = Tape::seeded(seed, &format!("c07a/{}", ord));
     let r = (|| -> Result<(), String> {
         let setup = api.setup(&mut t).map_err(|e| format!("setup {:?}", e))?;
@@ -151,13 +155,13 @@ fn part_a(api: &Api, ord: usize, seed: u64, cx: &mut Cx) {
         }
         cx.context_done();
         cx.state(&("a", ord));
-        routing(api, &files, &clients, &servers, cx, &format!("population-order-{}", ord));
+        routing(api, &files, &clients, &servers, cx, &format!("population-order-{}", ord), mode);
         cx.path();
         cx.sample(json!({"suite": api.name(), "part": "a", "order": ord, "records": 5, "client_sessions": 4, "server_sessions": servers.len()}));
         Ok(())
     })();
     if let Err(e) = r {
-        cx.violate_case("honest-step/error", e, json!({"part": "a"}));
+        honest_fail_case(cx, mode, "generation", e, json!({"part": "a"}));
     }
 }
 
@@ -276,7 +280,7 @@ impl Lts for Calls {
             let clients: Vec<(usize, Vec<u8>, Vec<u8>)> = s.clients.iter().flatten().cloned().collect();
             let pos_of = |q: usize| clients.iter().position(|c| c.0 == q).unwrap();
             let servers: Vec<Srv> = s.servers.iter().map(|(_, v)| Srv { q: pos_of(v.q), ..v.clone() }).collect();
-            routing(&self.api, &s.files, &clients, &servers, cx, "maximal-state");
+            routing(&self.api, &s.files, &clients, &servers, cx, "maximal-state", Mode::Own);
         }
     }
     fn describe(&self, a: &Op) -> Value {
@@ -325,7 +329,7 @@ pub fn run(tier: Tier, seed: u64) -> i32 {
             items.push((api, ord));
         }
     }
-    tot.merge(fw::run_items("C07", &items, |(a, _)| a.name().to_string(), |(api, ord), cx| part_a(api, *ord, seed, cx)));
+    tot.merge(fw::run_items("C07", &items, |(a, _)| a.name().to_string(), |(api, ord), cx| part_a(api, *ord, seed, cx, Mode::Own)));
     // (b)
     let mut items = vec![];
     for api in all_apis() {
